@@ -1121,58 +1121,86 @@ def dispatch_walk(b, op, vs, vr, discr_of):
         return UNK
 
     CMP = {'Lt': lambda x, y: x < y, 'Le': lambda x, y: x <= y, 'Gt': lambda x, y: x > y, 'Ge': lambda x, y: x >= y, 'Eq': lambda x, y: x == y, 'Ne': lambda x, y: x != y}
-    bi = 0
-    for _ in range(4000):
-        blk = b.blocks[bi]
-        for st in blk['st']:
-            if 'dst' not in st: continue
-            rv = st['rv']; k = rv['k']; val = UNK
-            if k == 'use': val = operand(rv['ops'][0])
-            elif k == 'ref': val = place(rv['pl'])
-            elif k == 'agg' and rv['adt'] == 'tuple': val = ('tuple', [operand(o) for o in rv['ops']])
-            elif k == 'discr':
-                x = place(rv['pl'])
-                if x[0] == 'enum': val = ('int', discr_of[case[x[1]]])
-                elif x[0] == 'optenum': val = ('int', 1)                      # an operand of a defined kind: the oneof is set
-            elif k == 'bin':
-                a0, a1 = operand(rv['ops'][0]), operand(rv['ops'][1])
-                if a0[0] == a1[0] == 'int' and rv['op'] in CMP: val = ('int', 1 if CMP[rv['op']](a0[1], a1[1]) else 0)
-                elif rv.get('ty') == 'f64' and a0[0] == a1[0] == 'payload':
-                    sides = {a0[1], a1[1]}
-                    if rv['op'] == op and sides == {0, 1}: return 'ok', '', bi
-                    return 'bad', 'the arm computes %s of %s' % (rv['op'], [a0, a1]), bi
-            elif k == 'un' and rv['op'] == 'Not':
-                x = operand(rv['ops'][0])
-                if x[0] == 'int': val = ('int', 0 if x[1] else 1)
-            elif k == 'cast':
-                x = operand(rv['ops'][0])
-                if x[0] == 'int': val = x
-            if st['dst']['p']: continue           # partial writes are not tracked
-            env[st['dst']['l']] = val
-        t = blk['term']; tk = t['k']
-        if tk in ('goto', 'drop', 'assert'): bi = t['t']; continue
-        if tk == 'return': return 'bad', 'returns without applying the operator to the two payloads', bi
-        if tk == 'switch':
-            d = operand(t['d'])
-            if d[0] != 'int': return None, 'a branch on a value the walk does not track', bi
-            m = {v: tg for v, tg in t['ts']}
-            bi = m.get(d[1], t['else']); continue
-        if tk == 'call':
-            name = t['r'] or t['f']
-            args = [operand(a) for a in t['args']]
-            kind = ops_kind((t.get('ri') or {}).get('trait') or '')
-            if kind and (t.get('ri') or {}).get('item') in ('add', 'sub', 'mul', 'neg') and any(a[0] == 'payload' for a in args):
-                sides = {a[1] for a in args if a[0] == 'payload'}
-                if kind == op and len(args) == 2 and all(a[0] == 'payload' for a in args) and sides == {0, 1}: return 'ok', '', bi
-                return 'bad', 'the arm applies %s to %s' % (kind, args), bi
-            if t['t'] < 0: return 'bad', 'panics (%s)' % name.split('::')[-1][:40], bi
-            val = UNK
-            if args and PASS_THROUGH.search(T.strip_generics_tail(name)):
-                val = ('enum', args[0][1]) if args[0][0] == 'optenum' and re.search(r'::(expect|unwrap\w*|take)$', T.strip_generics_tail(name)) else args[0]
-            if not t['dst']['p']: env[t['dst']['l']] = val
-            bi = t['t']; continue
-        return None, 'unexpected terminator %s' % tk, bi
-    return None, 'walk did not terminate', bi
+    budget = [6000, 48]          # steps, forks
+
+    def run(bi, env_, forked):
+        """outcomes [(verdict, detail, bb)] of all paths from block bi; a switch on an untracked value (a branch on the DATA of
+        the operands: degree(), is_zero(), a flag ...) forks, and every branch must still end in the operator on both payloads"""
+        nonlocal env
+        env = env_
+        while True:
+            budget[0] -= 1
+            if budget[0] <= 0: return [(None, 'walk did not terminate', bi)]
+            blk = b.blocks[bi]
+            for st in blk['st']:
+                if 'dst' not in st: continue
+                rv = st['rv']; k = rv['k']; val = UNK
+                if k == 'use': val = operand(rv['ops'][0])
+                elif k == 'ref': val = place(rv['pl'])
+                elif k == 'agg' and rv['adt'] == 'tuple': val = ('tuple', [operand(o) for o in rv['ops']])
+                elif k == 'discr':
+                    x = place(rv['pl'])
+                    if x[0] == 'enum': val = ('int', discr_of[case[x[1]]])
+                    elif x[0] == 'optenum': val = ('int', 1)                      # an operand of a defined kind: the oneof is set
+                elif k == 'bin':
+                    a0, a1 = operand(rv['ops'][0]), operand(rv['ops'][1])
+                    if a0[0] == a1[0] == 'int' and rv['op'] in CMP: val = ('int', 1 if CMP[rv['op']](a0[1], a1[1]) else 0)
+                    elif rv.get('ty') == 'f64' and a0[0] == a1[0] == 'payload':
+                        sides = {a0[1], a1[1]}
+                        if rv['op'] == op and sides == {0, 1}: return [('ok', '', bi)]
+                        return [('bad', 'the arm computes %s of %s' % (rv['op'], [a0, a1]), bi)]
+                elif k == 'un' and rv['op'] == 'Not':
+                    x = operand(rv['ops'][0])
+                    if x[0] == 'int': val = ('int', 0 if x[1] else 1)
+                elif k == 'cast':
+                    x = operand(rv['ops'][0])
+                    if x[0] == 'int': val = x
+                if st['dst']['p']: continue           # partial writes are not tracked
+                env[st['dst']['l']] = val
+            t = blk['term']; tk = t['k']
+            if tk in ('goto', 'drop', 'assert'): bi = t['t']; continue
+            if tk == 'return':
+                return [('bad', 'returns without applying the operator to the two payloads' + (' (on a branch taken under a condition on the operands\' data, before / beside the dispatch on their kinds)' if forked else ''), bi)]
+            if tk == 'switch':
+                d = operand(t['d'])
+                if d[0] == 'int':
+                    m = {v: tg for v, tg in t['ts']}
+                    bi = m.get(d[1], t['else']); continue
+                targets = []
+                for tg in [x[1] for x in t['ts']] + [t['else']]:
+                    if tg not in targets and b.blocks[tg]['term']['k'] != 'unreachable': targets.append(tg)
+                budget[1] -= len(targets)
+                if budget[1] < 0: return [(None, 'too many branches on untracked values', bi)]
+                out = []
+                saved = env
+                for tg in targets: out += run(tg, dict(saved), True)
+                return out
+            if tk == 'call':
+                name = t['r'] or t['f']
+                args = [operand(a) for a in t['args']]
+                kind = ops_kind((t.get('ri') or {}).get('trait') or '')
+                if kind and (t.get('ri') or {}).get('item') in ('add', 'sub', 'mul', 'neg') and any(a[0] == 'payload' for a in args):
+                    sides = {a[1] for a in args if a[0] == 'payload'}
+                    if kind == op and len(args) == 2 and all(a[0] == 'payload' for a in args) and sides == {0, 1}: return [('ok', '', bi)]
+                    return [('bad', 'the arm applies %s to %s' % (kind, args), bi)]
+                if t['t'] < 0:
+                    # a panic on a branch that depends on untracked data (assertion, "Empty Function") is not a wrong result
+                    return [('panic', name, bi)] if forked else [('bad', 'panics (%s)' % name.split('::')[-1][:40], bi)]
+                val = UNK
+                if args and PASS_THROUGH.search(T.strip_generics_tail(name)):
+                    val = ('enum', args[0][1]) if args[0][0] == 'optenum' and re.search(r'::(expect|unwrap\w*|take)$', T.strip_generics_tail(name)) else args[0]
+                if not t['dst']['p']: env[t['dst']['l']] = val
+                bi = t['t']; continue
+            return [(None, 'unexpected terminator %s' % tk, bi)]
+
+    outs = run(0, env, False)
+    bad = [o for o in outs if o[0] == 'bad']
+    if bad: return bad[0]
+    und = [o for o in outs if o[0] is None]
+    if und: return und[0]
+    oks = [o for o in outs if o[0] == 'ok']
+    if oks: return oks[0]
+    return None, 'every path panics', 0
 
 
 def dispatch_rules(ctx):
